@@ -32,9 +32,12 @@ def prepTi (ti : Terminfo) (tc : Bool) : Terminfo :=
 def utf8Payload (m : Rune) (comb : List Rune) : List Nat := Utf8.encode m ++ comb.flatMap Utf8.encode
 
 def mkCfgs (env : Env) (ti : Terminfo) (tc : Bool) (fit fit0 : List (Nat × Nat)) : DrawCfg × RenderCfg :=
+  let d := derive ti
   let dc : DrawCfg := { rw := env.rw, payload := utf8Payload, hasHide := !ti.hideCursor.isEmpty,
+                        hasCursorStyle := fun cs => match d.cursorStyles with | some l => cs < l.length | none => false,
+                        hasCursorRGB := !d.cursorRGB.isEmpty,
                         cornerTrick := ti.autoMargin && ti.disableAutoMargin.isEmpty && !ti.insertChar.isEmpty }
-  let rc : RenderCfg := { ti := ti, d := derive ti,
+  let rc : RenderCfg := { ti := ti, d := d,
                           truecolor := tc && !(ti.setFgBgRGB.isEmpty && ti.setFgRGB.isEmpty && ti.setBgRGB.isEmpty),
                           fit := lookupFit fit, fit0 := lookupFit fit0 }
   (dc, rc)
@@ -77,7 +80,7 @@ def run (env : Env) (rest : String) : String :=
           let bs := Render.renderAll rc cmds
           (wd', if bs.isEmpty then out else out.push (toString i ++ ":" ++ hex bs), i + 1)
         | none => (wd, out, i + 1)) (ScrW.init (toInt! w) (toInt! h), out0, 0)
-      let finB := Engage.disengageBytes rc wd.s.cursorStyle wd.s.cursorColor true
+      let finB := Engage.disengageBytes rc wd.s.cursorShaped wd.s.cursorTinted true
       let out := if finB.isEmpty then out else out.push ("z:" ++ hex finB)
       " ".intercalate out.toList
   | _ => "bad-line"
